@@ -48,6 +48,8 @@ def search(seed=0, N=150):
         lambda s: s.replace("true", "True").replace("false", "False").replace("null", "None"), lambda s: s[: max(1, len(s) // 2)],
         lambda s: s.replace(":1", ':"1"').replace(":0", ':"0"').replace(": 1", ': "1"').replace(": 0", ': "0"'), lambda s: "[" * 3000 + s + "]" * 3000, lambda s: "{" * 50000,
         lambda s: s + s, lambda s: "", lambda s: "null", lambda s: "1" * 5000, lambda s: '{"name": 5, "age": "x"}', lambda s: "\ud800" + s,
+        # several candidate objects in the text: an example / a broken one before the real answer
+        lambda s: 'For example {"zz": 1} is wrong. The answer: ' + s, lambda s: 'Draft {"name": } final: ' + s + ' (done)',
         # type swaps the other way round: every string value becomes a number (no string is left at the top level), a number becomes a string
         lambda s: __import__("re").sub(r':\s*"[^"]*"', ": 17", s), lambda s: __import__("re").sub(r":\s*(\d+)", r': "\1"', s, count=1),
     ]
@@ -97,7 +99,7 @@ def search(seed=0, N=150):
 if __name__ == "__main__":
     seed = int(os.environ.get("VERIF_SEED", "0") or 0)
     n, bad = search(seed, 150 if "--thorough" not in sys.argv else 1500)
-    out = {"status": "ok" if bad is None else "violation", "bound": "4 schemas x random instances x 20 corruption operators x strategy orders (seeded)", "cases": n}
+    out = {"status": "ok" if bad is None else "violation", "bound": "4 schemas x random instances x 22 corruption operators x strategy orders (seeded)", "cases": n}
     if bad:
         out["detail"] = bad
         os.makedirs("replays", exist_ok=True)
